@@ -504,9 +504,8 @@ func runConfig(res *core.Result, pool *idPool, r *rand.Rand, full bool) {
 					ms.Drain(vmesh.FIFO, 100)
 					// ... and a fresh key setup with the victim (a completed hello says the router is reachable, not
 					// that it may now use a port it was refused)
-					snd.Inst.RouterV.HelloPing.VerifExpireHello(V.ID.IP)
 					V.Inst.RouterV.HelloPing.VerifExpireHello(snd.ID.IP)
-					_, _ = snd.Inst.RouterV.HelloPing.Send(V.ID.IP)
+					_, _ = env.Rekey(snd.Inst, V.ID.IP)
 					ms.Drain(vmesh.FIFO, 100)
 				}
 				drainTun()
@@ -712,9 +711,8 @@ func runConfig(res *core.Result, pool *idPool, r *rand.Rand, full bool) {
 					_ = ep.SendAccessDenied(V.ID.IP, D.ID.IP, oproto, 80)
 					_ = ep.SendRejected(V.ID.IP, D.ID.IP, oproto, 80)
 					ms.Drain(vmesh.FIFO, 100)
-					snd.Inst.RouterV.HelloPing.VerifExpireHello(V.ID.IP)
 					V.Inst.RouterV.HelloPing.VerifExpireHello(snd.ID.IP)
-					_, _ = snd.Inst.RouterV.HelloPing.Send(V.ID.IP)
+					_, _ = env.Rekey(snd.Inst, V.ID.IP)
 					ms.Drain(vmesh.FIFO, 100)
 				}
 				drainTun()
